@@ -1,4 +1,5 @@
 import LyModel.Props.C10
+import LyModel.Props.C10Yin
 #print axioms LyModel.Props.C10.yang_encode_roundtrip
 #print axioms LyModel.Props.C10.yang_encode_roundtrip_fails_cr
 #print axioms LyModel.Props.C10.yang_text_roundtrip_partial
@@ -13,3 +14,13 @@ import LyModel.Props.C10
 #print axioms LyModel.Props.C10.kwBareOk_input_output
 #print axioms LyModel.Props.C10.yang_text_roundtrip_keyword
 #print axioms LyModel.Props.C10.kwTree_wf
+-- YIN route, generic statement layer (Props/C10Yin.lean)
+#print axioms LyModel.Props.C10Yin.yin_tables_agree
+#print axioms LyModel.Props.C10Yin.yin_attr_roundtrip
+#print axioms LyModel.Props.C10Yin.yin_text_roundtrip
+#print axioms LyModel.Props.C10Yin.yin_open_roundtrip
+#print axioms LyModel.Props.C10Yin.yin_close_roundtrip
+#print axioms LyModel.Props.C10Yin.yin_leaf_stmt_roundtrip
+#print axioms LyModel.Props.C10Yin.yin_ext_roundtrip_fails_F36
+#print axioms LyModel.Props.C10Yin.yin_stmt_roundtrip_fails_F86
+#print axioms LyModel.Props.C10Yin.yin_stmt_roundtrip_fails_errmsg_value
